@@ -138,7 +138,7 @@ func c11TypePredicates(ctx *core.Ctx, cc *CC) {
 // IsStruct side therefore defines a pointer type, and every reference to it
 // ("*Alias") is a pointer to a pointer that the generated readers cannot fill.
 func c11GoTypedefDecl(ctx *core.Ctx, cc *CC) {
-	ctx.Rule("C11.R10", "Go typedef declarations: the aliased type of a typedef is rendered through the reference renderer only where IsStruct is false (struct typedefs must not become defined pointer types)", 1)
+	ctx.Rule("C11.R10", "Go typedef declarations: the aliased type of a typedef is rendered through the reference renderer only where IsStruct and IsEnum are false (typedefs of structs/enums are aliases, not defined types)", 1)
 	gp := cc.Pkg("generator/golang")
 	gt := cc.FnOpt("generator/golang", "(*Generator).GenerateTypeDef")
 	ref := cc.FnOpt("generator/golang", "(*Generator).getGoTypeFromThriftTypePtr")
@@ -185,10 +185,10 @@ func c11GoTypedefDecl(ctx *core.Ctx, cc *CC) {
 			continue
 		}
 		n++
-		guarded := condDominated(c.Instr.(ssa.Instruction), "IsStruct", false)
+		guarded := condDominated(c.Instr.(ssa.Instruction), "IsStruct", false) && condDominated(c.Instr.(ssa.Instruction), "IsEnum", false)
 		alias := strings.Contains(f, "=")
-		ctx.Check(guarded || alias, "C11.R10", QName(gt)+" › declaration through the reference renderer is on the !IsStruct side", cc.IPos(c.Instr), "guarded by !IsStruct(typedef.Type)",
-			"a typedef of a struct is declared as `type Alias *Thing` (the renderer's pointer) while every use is rendered `*Alias` and filled with NewThing(): the generated Go does not compile for valid IDL with a struct typedef")
+		ctx.Check(guarded || alias, "C11.R10", QName(gt)+" › declaration through the reference renderer is on the !IsStruct side", cc.IPos(c.Instr), "guarded by !IsStruct(typedef.Type) && !IsEnum(typedef.Type)",
+			"a typedef of a struct is declared as `type Alias *Thing` (the renderer's pointer) while every use is rendered `*Alias` and filled with NewThing(), and a typedef of an enum becomes a distinct defined type that cannot take the enum's typed constants (defaults, constants): the generated Go does not compile for valid IDL with such a typedef")
 	}
 	if n == 0 {
 		ctx.Discharge("C11.R10", QName(gt)+" › no declaration uses the renderer's raw result", cc.FPos(gt), "nothing to guard")
